@@ -15,7 +15,14 @@ _obj = r'(?P<unres>unresolved )?(?P<type>[^\s@(),]+)@(?P<id>\d+)(?P<gen>[a-z]+|\
 _target = re.compile(_obj + r'\.(?P<name>\w+)\(')
 _objval = re.compile(r'^(?P<new>new )?' + _obj + r'$')
 _tail = re.compile(r'^(?: -- (?P<dobj>.+?)\.destroyed(?: after (?P<after>-?\d+\.\d+)s)?)?(?P<recv> [^\w\s]+)?$')
-_notice = re.compile(r'^(?P<what>New|Closed) (?P<role>client|server|unknown type) connection (?P<conn>\w+)$')
+# `New|Closed <role> connection <name>`; what may follow the name (a summary of the connection) is presentation
+_notice = re.compile(r'^(?P<what>New|Closed) (?P<role>client|server|unknown type) connection (?P<conn>\w+)(?=$|[^\w]).*$')
+
+
+def same_notice(line, expected):
+    """Is `line` the notice `expected` (given as 'New client connection A'), whatever follows the name?"""
+    a, b = _notice.match(line), _notice.match(expected)
+    return bool(a and b and a.group('what', 'role', 'conn') == b.group('what', 'role', 'conn'))
 # the gap separator: a rule of symbols, then the gap in seconds; what follows the figure (` later`, `(2m 05s)`, the closing
 # rule) is presentation.  A line that starts with the gutter of passed-through text is never a separator.
 _sep = re.compile(r'^\s*[^\w\s|\u2502]+\s*(?P<gap>-?\d+\.\d+)s\b.*$')
